@@ -146,7 +146,7 @@ def check(ctx, replay=None):
     os.chmod(scratch, 0o777)
     r = ctx.tlc("Sandbox", MC_CFG, workers=2, timeout=300)
     if r["violated"]:
-        ctx.note("TLC: %s violated (model level)" % r["violated"])
+        raise vlib.Machinery("TLC: %s violated: the specification of the unchanged design does not satisfy its own invariant" % r["violated"])
 
     def viol(msg, res, extra=None):
         o = {"run": {k: res[k] for k in ("fault", "rc", "stderr", "marker", "nnp", "uid")}, "policy": policy_for(res["fault"])[:2000],
